@@ -125,3 +125,51 @@ def expected_outputs(r):
     for p in r.pages:
         out.add(os.path.normpath(os.path.join(os.path.dirname(p), stem_of(os.path.basename(p)) + ".rst")))
     return out
+
+
+def small_trees(max_nodes=6):
+    """Every directory tree with at most `max_nodes` nodes below the root where a directory may hold: a lower-case
+    CMake file, a mixed-case one, a non-CMake file, and up to two sub-directories (names fixed per slot). Trees are
+    returned as Tree objects; the enumeration is deterministic."""
+    FILES = ["a.cmake", "B.CMake", "n.txt"]
+    DIRS = ["d1", "d2"]
+    import itertools
+
+    def shapes(budget, depth):
+        """yield (files tuple, subdir dict name->shape) using at most `budget` nodes"""
+        for k in range(len(FILES) + 1):
+            for fs in itertools.combinations(FILES, k):
+                if "B.CMake" in fs and "a.cmake" not in fs:
+                    continue            # carve-out: mixed case only beside a lower-case one
+                left = budget - len(fs)
+                if left < 0:
+                    continue
+                yield (fs, {})
+                if depth >= 3 or left < 1:
+                    continue
+                for s1 in shapes(left - 1, depth + 1):
+                    used1 = 1 + size(s1)
+                    yield (fs, {"d1": s1})
+                    if left - used1 >= 1:
+                        for s2 in shapes(left - used1 - 1, depth + 1):
+                            yield (fs, {"d1": s1, "d2": s2})
+
+    def size(sh):
+        return len(sh[0]) + sum(1 + size(v) for v in sh[1].values())
+
+    def build(sh, d, t):
+        for f in sh[0]:
+            rel = os.path.join(d, f)
+            t.files[rel] = cmake_text(rel) if f.lower().endswith(".cmake") else "not cmake ( \"\n"
+        for n, sub in sh[1].items():
+            sd = os.path.join(d, n)
+            t.dirs.add(sd)
+            build(sub, sd, t)
+    out = []
+    for sh in shapes(max_nodes, 0):
+        if "a.cmake" not in sh[0]:
+            continue                    # carve-out: the input directory holds a lower-case .cmake file
+        t = Tree()
+        build(sh, "", t)
+        out.append(t)
+    return out
